@@ -305,6 +305,49 @@ fn check_history(report: &Report, rt: &Arc<tokio::runtime::Runtime>, hist: &[H])
         }
         let _ = apply(&mut fx, &mut t, op);
     }
+    // summaries rendered by auto jobs are a function of the thread up to the cut: two jobs for the
+    // same cut point (overlapping or not) render the same text
+    {
+        let events = thread_events(&fx, &thread);
+        let job_created: std::collections::HashSet<String> = events
+            .iter()
+            .filter_map(|e| match &e.kind {
+                EventKind::ContinuityJobEnded { result, .. } => result.clone(),
+                _ => None,
+            })
+            .flat_map(|r| r.get("created").and_then(|c| c.as_array()).cloned().unwrap_or_default())
+            .filter_map(|c| c.get("checkpoint_id").and_then(|x| x.as_str()).map(|s| s.to_string()))
+            .collect();
+        let mut by_cut: std::collections::BTreeMap<u64, Vec<(String, String)>> = std::collections::BTreeMap::new();
+        for e in &events {
+            if let EventKind::ContinuityCompactionCheckpointCreated { checkpoint_id, summary_artifact_id, to_seq, .. } = &e.kind {
+                if job_created.contains(checkpoint_id) {
+                    let text = std::fs::read_to_string(fx.root.join(".rip/artifacts/blobs").join(summary_artifact_id)).unwrap_or_default();
+                    // the job that produced it is provenance, not content
+                    let text = match serde_json::from_str::<serde_json::Value>(&text) {
+                        Ok(mut v) => {
+                            if let Some(p) = v.pointer_mut("/provenance/produced_by").and_then(|p| p.as_object_mut()) {
+                                p.remove("id");
+                            }
+                            v.to_string()
+                        }
+                        Err(_) => text,
+                    };
+                    by_cut.entry(*to_seq).or_default().push((checkpoint_id.clone(), normalise_ids(&text)));
+                }
+            }
+        }
+        for (to_seq, list) in by_cut {
+            report.eval(None::<&u8>);
+            if let Some((id, text)) = list.iter().skip(1).find(|(_, t)| *t != list[0].1) {
+                report.violation(
+                    "C09:job_summaries_for_one_cut_differ",
+                    case_json(hist, json!({"to_seq": to_seq})),
+                    &format!("two auto jobs summarised the cut at seq {to_seq} differently: checkpoint {} = {} ; checkpoint {id} = {}", list[0].0, &list[0].1[..list[0].1.len().min(400)], &text[..text.len().min(400)]),
+                );
+            }
+        }
+    }
     check_cut_points(report, &fx, &thread, hist);
     for (stride, max_new) in [(1u64, 1u32), (2, 2), (3, 33)] {
         let probe = fx.copy(true);
@@ -323,7 +366,7 @@ pub fn run(opts: Opts) -> i32 {
     report.set_rule(
         "every history of <=4 (quick) / <=5 (thorough) ops from {message, answered run, side effects, cursor, manual checkpoint at last message / \
          first message / by stride 2, auto(1,1), auto(2,2), schedule(stride 1|2, max_new 1, block/execute/dry variants), inflight job (spawn \
-         without run)}; in the reached state: cut points for stride in {none,0,1,2,3,n,n+1} x limit in {none,0,1,2,32,33} vs a reference \
+         without run)} plus 25 histories with overlapping jobs (spawn and run halves as separate ops); in the reached state: cut points for stride in {none,0,1,2,3,n,n+1} x limit in {none,0,1,2,32,33} vs a reference \
          planner on log replay (warm store and a copy without caches); auto(stride,max_new) for (1,1),(2,2),(3,33) on copies: planned \
          checkpoints exactly, job bracket, readable summaries with matching coverage, identical summaries on a byte-identical twin store, \
          repeat = noop + zero bytes; schedule decisions vs reference; distinct = history",
@@ -347,6 +390,30 @@ pub fn run(opts: Opts) -> i32 {
     let mut hs = sequences(&alphabet, tier.pick(4, 5));
     // only histories with at least one message are interesting beyond depth 1
     hs.retain(|h| h.len() <= 1 || h.iter().any(|o| matches!(o, H::Msg | H::Run)));
+    // overlapping jobs (spawn half and run half are separate ops): every order of two spawns and
+    // two runs after 1..3 messages, with a message or a manual checkpoint in between
+    {
+        let sp = H::SpawnJobOnly { stride: 1 };
+        let run = H::RunOldestJob;
+        for msgs in 1..=3usize {
+            for mid in [None, Some(H::Msg), Some(H::Ckpt(0)), Some(H::Run)] {
+                let mut base: Vec<H> = vec![H::Msg; msgs];
+                base.push(sp.clone());
+                if let Some(m) = &mid {
+                    base.push(m.clone());
+                }
+                // spawn B, run A, run B | run A, spawn B, run B
+                let mut h1 = base.clone();
+                h1.extend([sp.clone(), run.clone(), run.clone()]);
+                hs.push(h1);
+                let mut h2 = base.clone();
+                h2.extend([run.clone(), sp.clone(), run.clone()]);
+                hs.push(h2);
+            }
+        }
+        let sp2 = H::SpawnJobOnly { stride: 1 };
+        hs.push(vec![H::Msg, H::Msg, sp2.clone(), sp2.clone(), sp2, run.clone(), run.clone(), run]);
+    }
     report.set_extra("histories", json!(hs.len()));
     report.sample(json!({"history": hs[100.min(hs.len() - 1)].iter().map(name).collect::<Vec<_>>()}));
     report.sample(json!({"history": hs[hs.len() / 2].iter().map(name).collect::<Vec<_>>()}));
